@@ -112,3 +112,44 @@ func TestReplayC10(t *testing.T) {
 	}
 	replayResult(t, "C10", checkC10(&w, nil))
 }
+
+// TestC10Big: the same fault enumeration on a few fixed big files (one page of > 2040 records per column, so that
+// page bodies of every column family - incl. bit-packed required bools - are far larger than any internal buffer).
+func TestC10Big(t *testing.T) {
+	if !fx.Has("big") {
+		t.Skip()
+	}
+	nsh, idx := envInt("VERIF_NSHARDS", 1), envInt("VERIF_SHARDIDX", 0)
+	f := fx.Get("big")
+	g := vt.DefaultGen
+	g.LongList, g.MaxList, g.LongStr, g.MaxStr, g.UniformStr = 0, 2, 0, 24, true
+	k := 0
+	for codec := 0; codec < 3; codec++ {
+		for _, batches := range [][]int{{2100}, {2090, 10}} {
+			k++
+			if k%nsh != idx {
+				continue
+			}
+			w := &Workload{Fixture: "big", PageSize: 10000, Codec: codec, Batches: batches}
+			recs := rapid.Custom(func(t *rapid.T) []*vt.Val {
+				var out []*vt.Val
+				for i := 0; i < 2100; i++ {
+					out = append(out, vt.GenRecord(t, f.Root, g))
+				}
+				return out
+			}).Example(1000 + k)
+			w.Records = recs
+			h := fmt.Sprintf("big/%d/%v", codec, batches)
+			o := checkC10(w, func(k int, mode string, kind byte) {
+				record("C10", fmt.Sprintf("%s/%d/%s", h, k, mode), true, []string{"mode=" + mode, "fixture=big", "codec=" + fx.CodecNames[codec], "big-file"}, nil)
+			})
+			if o != nil {
+				if isKnown("C10", o.Key) {
+					continue
+				}
+				saveFail("C10", w, o)
+				t.Fatalf("C10 violated: %s", o.Error())
+			}
+		}
+	}
+}
